@@ -243,8 +243,7 @@ func runC19(c *Ctx) {
 			continue
 		}
 		// (a): closes exist → send and close must hold the registry mutex in their own goroutine
-		fc := newFnCFG(s.b.Body, info)
-		held := normHeld(fc.heldAt(s.node), false)
+		held := normHeld(heldIn(p, s.b, s.node), false)
 		hasMu := false
 		for k := range held {
 			if strings.HasSuffix(k, "."+ri.MuFld.Name()) {
@@ -260,8 +259,7 @@ func runC19(c *Ctx) {
 	}
 	for i, cl := range closes {
 		key := fmt.Sprintf("%s|close#%d in %s", regKey, i+1, funcKey(p, cl.b.Decl))
-		fc := newFnCFG(cl.b.Body, info)
-		held := normHeld(fc.heldAt(cl.node), true)
+		held := normHeld(heldIn(p, cl.b, cl.node), true)
 		hasMu := false
 		for k := range held {
 			if strings.HasSuffix(k, "."+ri.MuFld.Name()) {
@@ -273,6 +271,55 @@ func runC19(c *Ctx) {
 
 	// R2, R4: the broadcaster — functions that range over the registry map ------------------------------
 	nb := 0
+	// snapshot helpers: a function of the package that copies the registered clients into a fresh slice and returns it
+	// (`for _, c := range s.requests { out = append(out, c) }; return out`). The broadcaster may then range over the
+	// copy; the copy must be taken under the mutex — in the helper, or at every one of its call sites.
+	snapshotLoop := func(fd *ast.FuncDecl, rs *ast.RangeStmt) bool {
+		if fd == nil || fd.Type.Results == nil || len(fd.Type.Results.List) != 1 || len(rs.Body.List) != 1 {
+			return false
+		}
+		as, ok := rs.Body.List[0].(*ast.AssignStmt)
+		if !ok || len(as.Lhs) != 1 || len(as.Rhs) != 1 {
+			return false
+		}
+		lid, ok := as.Lhs[0].(*ast.Ident)
+		call, ok2 := ast.Unparen(as.Rhs[0]).(*ast.CallExpr)
+		if !ok || !ok2 || types.ExprString(call.Fun) != "append" || len(call.Args) < 2 {
+			return false
+		}
+		if fid, ok := ast.Unparen(call.Args[0]).(*ast.Ident); !ok || info.ObjectOf(fid) != info.ObjectOf(lid) {
+			return false
+		}
+		// every return hands back that slice
+		okAll, nret := true, 0
+		ast.Inspect(fd.Body, func(m ast.Node) bool {
+			if _, isLit := m.(*ast.FuncLit); isLit {
+				return false
+			}
+			if ret, ok := m.(*ast.ReturnStmt); ok {
+				nret++
+				if len(ret.Results) != 1 {
+					okAll = false
+				} else if rid, ok := ast.Unparen(ret.Results[0]).(*ast.Ident); !ok || info.ObjectOf(rid) != info.ObjectOf(lid) {
+					okAll = false
+				}
+			}
+			return true
+		})
+		return okAll && nret > 0
+	}
+	snapshotFns := map[types.Object]bool{}
+	for _, fd := range allFuncDecls(p) {
+		if fd.Body == nil {
+			continue
+		}
+		ast.Inspect(fd.Body, func(m ast.Node) bool {
+			if rs, ok := m.(*ast.RangeStmt); ok && isRegMap(rs.X) && snapshotLoop(fd, rs) {
+				snapshotFns[info.Defs[fd.Name]] = true
+			}
+			return true
+		})
+	}
 	for _, b := range bodies {
 		directNodes(b.Body, func(n ast.Node) bool {
 			rs, ok := n.(*ast.RangeStmt)
@@ -284,15 +331,53 @@ func runC19(c *Ctx) {
 			if !isRegMap(regX) && b.Decl != nil {
 				regX = unfoldLocals(p, b.Decl, rs.X)
 			}
-			if !isRegMap(regX) {
+			overSnapshot := false
+			if call, ok := ast.Unparen(rs.X).(*ast.CallExpr); ok {
+				if fn := calleeOf(info, call); fn != nil && snapshotFns[fn] {
+					overSnapshot = true
+				}
+			}
+			if !isRegMap(regX) && !overSnapshot {
 				return true
 			}
 			nb++
 			key := funcKey(p, b.Decl) + "|broadcast-loop"
-			fc := newFnCFG(b.Body, info)
-			held := normHeld(fc.heldAt(rs), false)
-			c.check(held[muKeyOf(regX)], "C19.R3", key+"|reads-registry-under-lock", c.pos(rs.Pos()), "registry is iterated under its mutex "+heldList(held),
-				"the broadcast loop iterates the client registry without holding its mutex "+heldList(held))
+			if isRegMap(regX) && b.Lit == nil && snapshotLoop(b.Decl, rs) {
+				// the copying loop of a snapshot helper: under the mutex here, or at every call site
+				held := normHeld(heldIn(p, b, rs), false)
+				okLock := held[muKeyOf(regX)]
+				where := "in the helper"
+				if !okLock {
+					nsites, all := 0, true
+					for _, ob := range bodies {
+						directNodes(ob.Body, func(m ast.Node) bool {
+							call, ok := m.(*ast.CallExpr)
+							if !ok || types.Object(calleeOf(info, call)) != info.Defs[b.Decl.Name] {
+								return true
+							}
+							nsites++
+							want := ri.MuFld.Name()
+							if se, ok := ast.Unparen(call.Fun).(*ast.SelectorExpr); ok {
+								want = types.ExprString(se.X) + "." + ri.MuFld.Name()
+							}
+							if !normHeld(heldIn(p, ob, call), false)[want] {
+								all = false
+							}
+							return true
+						})
+					}
+					okLock = nsites > 0 && all
+					where = fmt.Sprintf("at each of its %d call site(s)", nsites)
+				}
+				c.check(okLock, "C19.R3", key+"|reads-registry-under-lock", c.pos(rs.Pos()), "the registry is copied under its mutex ("+where+")",
+					"the client registry is copied into a slice without its mutex being held, neither in "+b.Decl.Name.Name+" nor at every call of it: concurrent map read and write with subscribe/unsubscribe")
+				return true
+			}
+			if !overSnapshot {
+				held := normHeld(heldIn(p, b, rs), false)
+				c.check(held[muKeyOf(regX)], "C19.R3", key+"|reads-registry-under-lock", c.pos(rs.Pos()), "registry is iterated under its mutex "+heldList(held),
+					"the broadcast loop iterates the client registry without holding its mutex "+heldList(held))
+			}
 			// R2: no blocking channel op directly in the loop
 			blocking := ""
 			directNodes(rs.Body, func(m ast.Node) bool {
@@ -471,14 +556,13 @@ func runC19(c *Ctx) {
 	// R3: registration and removal ---------------------------------------------------
 	nstore, ndel := 0, 0
 	for _, b := range bodies {
-		fc := newFnCFG(b.Body, info)
 		directNodes(b.Body, func(n ast.Node) bool {
 			switch n := n.(type) {
 			case *ast.AssignStmt:
 				for _, l := range n.Lhs {
 					if ix, ok := l.(*ast.IndexExpr); ok && isRegMap(ix.X) {
 						nstore++
-						held := normHeld(fc.heldAt(n), true)
+						held := normHeld(heldIn(p, b, n), true)
 						c.check(held[muKeyOf(ix.X)], "C19.R3", funcKey(p, b.Decl)+"|register-under-lock", c.pos(n.Pos()), "client registered under the mutex",
 							"a client is registered without holding the registry mutex "+heldList(held)+": concurrent map write with the broadcaster")
 					}
@@ -486,12 +570,12 @@ func runC19(c *Ctx) {
 			case *ast.CallExpr:
 				if id, ok := n.Fun.(*ast.Ident); ok && id.Name == "delete" && len(n.Args) == 2 && isRegMap(n.Args[0]) {
 					ndel++
-					held := normHeld(fc.heldAt(n), true)
+					held := normHeld(heldIn(p, b, n), true)
 					c.check(held[muKeyOf(n.Args[0])], "C19.R3", funcKey(p, b.Decl)+"|unregister-under-lock", c.pos(n.Pos()), "client removed under the mutex",
 						"a client is removed from the registry map without holding the registry mutex exclusively "+heldList(held)+" (a read lock does not exclude other writers): two clients disconnecting at the same moment write the map concurrently — fatal error: concurrent map writes, which kills the watch process")
 					// must be in a deferred closure of the handler
 					deferred := false
-					for _, dc := range deferredCalls(b.Decl.Body) {
+					for _, dc := range deferredCallsDeep(p, b.Decl.Body) {
 						if dc == n {
 							deferred = true
 						}
